@@ -295,7 +295,13 @@ func (rt *Transfer) recvGenerator(idx int, f *File) error {
 		if rt.Opts.InfoGTE(rsyncopts.INFO_SKIP, 1) {
 			rt.Logger.Printf("skipping %s", local)
 		}
-		if err := rt.setPerms(f, fs.FileMode(f.Mode)); err != nil {
+		mode := fs.FileMode(f.Mode)
+		if !rt.Opts.PreservePerms {
+			// Not preserving permissions: an existing file keeps its own
+			// permissions (see also openLocalFile for files that are updated).
+			mode = mode&^fs.ModePerm | st.Mode().Perm()
+		}
+		if err := rt.setPerms(f, mode); err != nil {
 			return err
 		}
 		return nil
